@@ -2,6 +2,7 @@ package compose
 
 import (
 	"context"
+	"fmt"
 	"errors"
 	"io"
 
@@ -14,9 +15,12 @@ import (
 var c17Err = errors.New("c17 tool failed")
 
 type c17Behav struct {
-	fail  map[string]int // call id -> 0 ok, 1 error, 2 panic
+	fail  map[string]int // call id -> 0 ok, 1 error, 2 panic, 3 error item after the first chunk, 4 error item first
 	yield bool
+	err   error // the error a failing stream reports (default c17Err)
 }
+
+var c17WrappedEOF = fmt.Errorf("backend connection ended early: %w (%w)", io.EOF, c17Err)
 
 type c17Base struct {
 	name string
@@ -65,11 +69,17 @@ func (t *c17Both) StreamableRun(ctx context.Context, args string, opts ...tool.O
 type c17StreamOnly struct{ c17Base }
 
 func (t *c17StreamOnly) StreamableRun(ctx context.Context, args string, opts ...tool.Option) (*schema.StreamReader[string], error) {
-	if t.b.fail[GetToolCallID(ctx)] == 3 {
-		// fails in the middle of its output: an error item after the first chunk
+	if f := t.b.fail[GetToolCallID(ctx)]; f == 3 || f == 4 {
+		// fails in the middle of its output: an error item after the first chunk (3) or right away (4)
+		theErr := t.b.err
+		if theErr == nil {
+			theErr = c17Err
+		}
 		sr, sw := schema.Pipe[string](2)
-		sw.Send(c17P(t.name, args), nil)
-		sw.Send("", c17Err)
+		if f == 3 {
+			sw.Send(c17P(t.name, args), nil)
+		}
+		sw.Send("", theErr)
 		sw.Close()
 		return sr, nil
 	}
@@ -266,6 +276,9 @@ func VerifC17MidStreamFailure() {
 	vcfg("fifo", 1)
 	vcfg("selectfirst", 1)
 	b := &c17Behav{fail: map[string]int{}}
+	if vchoose("errkind", 2) == 1 {
+		b.err = c17WrappedEOF // an error that wraps io.EOF is still that tool's error, not end-of-stream
+	}
 	tn, err := NewToolNode(ctx, &ToolsNodeConfig{Tools: []tool.BaseTool{&c17Both{c17Base{"t0", b}}, &c17StreamOnly{c17Base{"t1", b}}}})
 	vassert(err == nil, "tools node is created")
 	n := 1 + vchoose("n", 2)
@@ -276,12 +289,28 @@ func VerifC17MidStreamFailure() {
 		name := "t0"
 		if i == failing {
 			name = "t1"
-			b.fail[id] = 3
+			b.fail[id] = 3 + vchoose("when", 2)
 		}
 		msg.ToolCalls = append(msg.ToolCalls, schema.ToolCall{ID: id, Function: schema.FunctionCall{Name: name, Arguments: "x"}})
 	}
+	drain := func(sr *schema.StreamReader[[]*schema.Message]) error {
+		defer sr.Close()
+		for k := 0; k < 8; k++ {
+			_, e := sr.Recv()
+			if e == io.EOF {
+				return nil
+			}
+			if e != nil {
+				return e
+			}
+		}
+		return nil
+	}
 	var rerr error
-	if vchoose("graph", 2) == 1 {
+	mode := vchoose("mode", 4)
+	what := []string{"streamed call", "streamed run", "invoked call", "invoked run"}[mode]
+	switch mode {
+	case 1, 3:
 		g := NewGraph[*schema.Message, []*schema.Message]()
 		_ = g.AddToolsNode("tools", tn)
 		_ = g.AddLambdaNode("after", InvokableLambda(func(ctx context.Context, in []*schema.Message) ([]*schema.Message, error) { return in, nil }))
@@ -290,43 +319,113 @@ func VerifC17MidStreamFailure() {
 		_ = g.AddEdge("after", END)
 		r, cerr := g.Compile(ctx)
 		vassert(cerr == nil, "graph compiles")
-		sr, e := r.Stream(ctx, msg)
+		if mode == 1 {
+			sr, e := r.Stream(ctx, msg)
+			rerr = e
+			if e == nil {
+				rerr = drain(sr)
+			}
+		} else {
+			_, rerr = r.Invoke(ctx, msg)
+		}
+	case 0:
+		sr, e := tn.Stream(ctx, msg)
+		rerr = e
+		if e == nil {
+			rerr = drain(sr)
+		}
+	case 2:
+		_, rerr = tn.Invoke(ctx, msg)
+	}
+	vquiesce()
+	vassert(rerr != nil && errors.Is(rerr, c17Err), "a tool failing in the middle of (or at the start of) its stream makes the "+what+" fail with that tool's error")
+}
+
+// per-call tool list (WithToolList): not given / empty but non-nil / a subset; Invoke and Stream treat it alike: a
+// call to a tool that is not in the effective list is an unknown tool (error, or the handler's answer)
+func VerifC17ToolList() {
+	ctx := context.Background()
+	vcfg("fifo", 1)
+	vcfg("selectfirst", 1)
+	b := &c17Behav{fail: map[string]int{}}
+	t0, t2 := &c17Both{c17Base{"t0", b}}, &c17InvokeOnly{c17Base{"t2", b}}
+	conf := &ToolsNodeConfig{Tools: []tool.BaseTool{t0, t2}}
+	withHandler := vchoose("handler", 2) == 1
+	if withHandler {
+		conf.UnknownToolsHandler = func(ctx context.Context, name, input string) (string, error) {
+			return vsymUFStr("unknown_"+name, input), nil
+		}
+	}
+	tn, err := NewToolNode(ctx, conf)
+	vassert(err == nil, "tools node is created")
+	var opts []ToolsNodeOption
+	eff := map[string]bool{"t0": true, "t2": true}
+	switch vchoose("list", 4) {
+	case 1:
+		opts = append(opts, WithToolList()) // no tools named: nil list, the configured tools stay
+	case 2:
+		opts = append(opts, WithToolList([]tool.BaseTool{}...)) // a filter that kept nothing
+		eff = map[string]bool{}
+	case 3:
+		opts = append(opts, WithToolList(t0))
+		eff = map[string]bool{"t0": true}
+	}
+	msg := &schema.Message{Role: schema.Assistant}
+	var want []string
+	unknown := false
+	for i := 0; i < 2; i++ {
+		name := []string{"t0", "t2"}[vchoose("tool", 2)]
+		args := vsymStr("args")
+		msg.ToolCalls = append(msg.ToolCalls, schema.ToolCall{ID: []string{"id0", "id1"}[i], Function: schema.FunctionCall{Name: name, Arguments: args}})
+		if eff[name] {
+			want = append(want, c17Out(name, args))
+		} else {
+			unknown = true
+			want = append(want, vsymUFStr("unknown_"+name, args))
+		}
+	}
+	got := make([]string, 2)
+	var rerr error
+	if vchoose("stream", 2) == 1 {
+		sr, e := tn.Stream(ctx, msg, opts...)
 		rerr = e
 		if e == nil {
 			for k := 0; k < 8; k++ {
-				_, e := sr.Recv()
+				ms, e := sr.Recv()
 				if e == io.EOF {
 					break
 				}
 				if e != nil {
 					rerr = e
 					break
+				}
+				for i, m := range ms {
+					if m != nil {
+						got[i] += m.Content
+					}
 				}
 			}
 			sr.Close()
 		}
 	} else {
-		sr, e := tn.Stream(ctx, msg)
+		ms, e := tn.Invoke(ctx, msg, opts...)
 		rerr = e
 		if e == nil {
-			for k := 0; k < 8; k++ {
-				_, e := sr.Recv()
-				if e == io.EOF {
-					break
-				}
-				if e != nil {
-					rerr = e
-					break
-				}
+			for i, m := range ms {
+				got[i] = m.Content
 			}
-			sr.Close()
 		}
 	}
-	vquiesce()
-	vassert(rerr != nil && errors.Is(rerr, c17Err), "a tool failing in the middle of its stream makes the streamed call fail with that tool's error")
+	if unknown && !withHandler {
+		vassert(rerr != nil, "a call to a tool outside the effective tool list is an unknown tool: an error without a handler")
+		return
+	}
+	vassert(rerr == nil, "calls within the effective tool list (or answered by the handler) succeed")
+	for i := range want {
+		vassert(got[i] == want[i], "each call is answered by its tool from the effective list, or by the unknown-tool handler")
+	}
 }
 
-// five calls: the tool of the last call finishes first (its stream ends before the others deliver)
 func VerifC17FiveCalls() {
 	ctx := context.Background()
 	vcfg("fifo", 1)
